@@ -553,7 +553,10 @@ def check(run):
         "creator_of; non-trivial = some navigation read returns an object")
     with common.Lock():
         res = common.build_props("Props/C18.v", extra_targets=["Model/StoreCases.vo"])
-        run.add_build(res, "make -C coq Props/C18.vo (coqc 8.16.1, full .vo) + Print Assumptions per theorem")
+        run.add_build(res, "make -C coq Props/C18.vo (coqc 8.16.1, full .vo) + Print Assumptions per theorem"
+                           + ("" if quick else " + coqchk -o V.Props.C18"))
+        if not quick and res["ok"]:
+            base.run_coqchk(run, "V.Props.C18")
     probe = common.run_impl("c11_impl", [{"kind": "probe"}], procs=1)[0]
     base.NAIVE_KEPT[0] = bool(probe.get("naive_kept", True))
     cases = [witness_case(), base.witness_case("mem")]
